@@ -21,6 +21,7 @@
 (*                                         tree is untouched: index and    *)
 (*                                         disk may now disagree)          *)
 (*     ST  porcelain.stash_pop of a stash whose tree is the given tree     *)
+(*     MV  porcelain.apply_patch of one rename / copy patch (action Move)  *)
 (*     AP  porcelain.apply_patch, one file patch per regular file of the   *)
 (*         tree: a patch that MODIFIES the path if it currently resolves   *)
 (*         to a regular file (through links), else a "new file" patch      *)
@@ -545,6 +546,37 @@ ApplyPatch(F, I, T, pr) ==
     Done(PatchAll(St(F, I), SelectSeq(FlatSeq(T), LAMBDA ent : ent.k.t = "f"), pr))
 
 (***************************************************************************)
+(* patch.apply_patches of one rename / copy patch (with or without a hunk) *)
+(* m = [mode: "ren" | "cpy", hunks: BOOLEAN, src, dst]; a patch with a     *)
+(* hunk replaces the source's lines by the line "B".  Destination and      *)
+(* source both go through _validate_patch_target.                          *)
+(***************************************************************************)
+PatchTargetOk(F, cs, pr) ==           \* "ok" / "refused" / "err"
+    IF ~WithinRepo(F, cs) \/ ~ValidPath(cs, pr) THEN "refused" ELSE VerifyLeading(F, cs)
+
+MovePatch(F, I, m, pr) ==
+    LET S == St(F, I)
+        vd == PatchTargetOk(F, m.dst, pr)
+        vs == PatchTargetOk(F, m.src, pr)
+    IN IF vd = "refused" THEN Refused(S) ELSE IF vd = "err" THEN Err(S)
+       ELSE IF vs = "refused" THEN Refused(S) ELSE IF vs = "err" THEN Err(S)
+       ELSE LET r == SRes(F, m.src)
+                onDisk == Present(F, r)
+                readable == IF onDisk THEN F[r.loc].t = "f"                              \* a directory: IsADirectoryError
+                            ELSE m.src \in DOMAIN I /\ I[m.src].t = "f"                  \* else the blob in the index
+                c == IF onDisk THEN F[r.loc].c ELSE I[m.src].c
+            IN IF ~readable THEN Err(S)
+               ELSE LET S1 == IF Len(m.dst) > 1 THEN Do(S, Makedirs(S.F, Front(m.dst), TRUE)) ELSE S
+                        S2 == IF S1.r = "run" /\ FixPatch /\ LStatT(S1.F, m.dst) = "l" THEN Do(S1, Unlink(S1.F, m.dst)) ELSE S1
+                        S3 == IF S2.r = "run" THEN Do(S2, WriteFile(S2.F, m.dst, IF m.hunks THEN "B" ELSE c)) ELSE S2
+                        S4 == IF S3.r # "run" THEN S3
+                              ELSE [S3 EXCEPT !.I = IdxPut(S3.I, m.dst, FileIdx(IF m.hunks THEN "B" ELSE c,
+                                                                                  S3.F[SRes(S3.F, m.dst).loc].x))]
+                        S5 == IF S4.r = "run" /\ m.mode = "ren" /\ Exists(S4.F, m.src) THEN Do(S4, Unlink(S4.F, m.src)) ELSE S4
+                    IN IF S5.r # "run" THEN S5
+                       ELSE Done(IF m.mode = "ren" THEN [S5 EXCEPT !.I = IdxDel(S5.I, m.src)] ELSE S5)
+
+(***************************************************************************)
 (* Operations: the set of admissible results of op on tree T               *)
 (***************************************************************************)
 Res(S, I2, hd, hh) == [F |-> S.F, I |-> I2, head |-> hd, hasHead |-> hh, r |-> S.r, t |-> S.t]
@@ -594,7 +626,22 @@ Step(op, T) ==
 Init == /\ fs = InitFS /\ idx = EmptyIdx /\ head = {} /\ hasHead = FALSE
         /\ prot \in Prots /\ n = 0 /\ out = [op |-> "init", res |-> "ok"] /\ esc = FALSE
 
-Next == \E op \in Ops, T \in TreeSet : Step(op, T)
+\* one rename / copy patch through porcelain.apply_patch (explored when "MV" is among the operations)
+Move(m) ==
+    /\ n < MaxLen /\ "MV" \in Ops /\ m.src # m.dst
+    /\ LET S == MovePatch(fs, idx, m, prot) IN
+        /\ fs' = S.F /\ idx' = (IF S.r = "ok" THEN S.I ELSE idx)
+        /\ out' = [op |-> "MV", res |-> S.r]
+        /\ esc' = (esc \/ \E loc \in S.t : ~InWT(loc))
+    /\ n' = n + 1
+    /\ UNCHANGED <<head, hasHead, prot>>
+
+MoveSrcs == {<<"..", "of">>, <<"", "p", "of">>, <<".git", "config">>, <<"d", "x">>, <<"a">>, <<"d">>}
+MoveDsts == {<<"e">>, <<"..", "tmp">>}
+MovesAll == [mode : {"ren", "cpy"}, hunks : BOOLEAN, src : MoveSrcs, dst : MoveDsts]
+
+Next == \/ \E op \in Ops \ {"MV"}, T \in TreeSet : Step(op, T)
+        \/ \E m \in MovesAll : Move(m)
 Spec == Init /\ [][Next]_vars
 
 (***************************************************************************)
@@ -674,6 +721,12 @@ DeepCraft == {E(<<"a">>, DK({E(<<"b">>, DK({E(<<"c">>, DK({E(<<"e">>, FA), E(<<"
 DeepOne   == {E(<<"a">>, DK({E(<<"d">>, DK({E(<<"c">>, DK({E(<<"z">>, FB)}))}))}))}
 TreesDeep == {{}, DeepLink, DeepFiles, DeepCraft, DeepOne}
 OpsWalk == {"CL", "RI", "ST", "RH", "COF"}
+\* rename / copy patches with hostile sources, and "unchanged entry whose file is missing" for reset --hard
+TreesMove == {{}, {E(<<"d">>, Lod)}, {E(<<"d">>, DA)}, {E(<<"a">>, FA)}, {E(<<"a">>, LK(<<"..", "of">>))}}
+OpsMove == {"RH", "MV"}
+DF == DK({E(<<"f">>, FA)})              \* d/f: no file of that name exists in the outside directories
+TreesUnch == {{}, {E(<<"d">>, Lod)}, {E(<<"d">>, Lgit)}, {E(<<"d">>, DF)}, {E(<<"d">>, DK({E(<<"x">>, FX)}))}}
+OpsUnch == {"RH", "RM", "COF", "RI"}
 \* gitlinks: three operations
 EntsGl == {E(<<"d">>, k) : k \in {GK, FB, Lod, DA, DK({E(<<"x">>, GK)})}} \cup {E(<<"git~1">>, FA)}
 TreesGl == TreesOver(EntsGl, 1)
